@@ -49,12 +49,23 @@ class Peer:
 
             h.remote_commands["BOOM"] = __import__("secsgem.gem", fromlist=["RemoteCommand"]).RemoteCommand("BOOM", "fails", [], 20)
             h.callbacks.rcmd_BOOM = boom
+        # callbacks of the user's own that fail: on a stream outside the shipped catalogue, on a catalogued stream with an
+        # uncatalogued function, and on a stream number beyond one byte's stream field used by the catalogue
+        def user_boom(_handler, _message):
+            raise RuntimeError("user callback failed")
+
+        for s, f in USER_CALLBACKS:
+            self.rig.handler.register_stream_function(s, f, user_boom)
         self.rig.establish()
         self.rig.new_frames()
 
     def send(self, s, f, w, body):
         rig = self.rig
         system = rig.next_system()
+        # system bytes are arbitrary 32-bit values: every fifth request carries one of the extremes (0 is falsy in Python)
+        self.count = getattr(self, "count", 0) + 1
+        if self.count % 5 == 0:
+            system = (0, 0xFFFFFFFF, 0x80000000)[(self.count // 5) % 3]
         request = gemrig.HsmsMessage(gemrig.HsmsHeader(system, 0, s, f, w, 0, gemrig.HsmsSType.DATA_MESSAGE), body)
         rig.conn.feed(request.blocks[0].encode())
         if not rig.settle():
@@ -83,6 +94,9 @@ class Peer:
         self.rig.stop()
 
 
+USER_CALLBACKS = [(99, 1), (1, 65), (13, 1), (3, 17), (127, 255)]
+
+
 def run_history(host, msgs):
     peer = Peer(host)
     lits = []
@@ -90,7 +104,7 @@ def run_history(host, msgs):
         for s, f, w, body in msgs:
             replies, sys_ok, hdr_ok = peer.send(s, f, w, body)
             lits.append("{| b_host := " + L.bool_(host) + f"; b_s := {L.z(s)}; b_f := {L.z(f)}; b_w := {L.bool_(w)}; b_replies := [" + ";".join(replies)
-                        + f"]; b_system_ok := {L.bool_(sys_ok)}; b_header_ok := {L.bool_(hdr_ok)} |}}")
+                        + f"]; b_system_ok := {L.bool_(sys_ok)}; b_header_ok := {L.bool_(hdr_ok)}; b_user := {L.bool_((s, f) in USER_CALLBACKS)} |}}")
     finally:
         peer.stop()
     return lits
@@ -130,6 +144,9 @@ def gen_histories(rnd, tier):
     unknown = sf.function(2, 41)({"RCMD": "NOPE", "PARAMS": []}).encode()
     hist.append((False, [(2, 41, True, boom, "valid"), (2, 41, True, start, "valid"), (2, 41, True, unknown, "valid"), (2, 41, False, start, "valid"),
                          (1, 1, True, b"", "valid"), (1, 1, False, b"", "valid"), (1, 3, False, b"\x01", "garbage"), (99, 1, False, b"", "empty"), (99, 1, True, b"", "empty")]))
+    # the user's failing callbacks, with and without W-bit, in both roles
+    for host in (False, True):
+        hist.append((host, [(s, f, w, b"", "empty") for (s, f) in USER_CALLBACKS for w in (True, False)]))
     return hist
 
 
@@ -172,7 +189,7 @@ def run(tier, replay=None):
     if replay:
         print(json.dumps(json.load(open(replay)), indent=1)[:3000])
         return 0
-    proof = common.prove(report, "C08", ["callbacks"], extra_targets=["Run/C08Run.vo"])
+    proof = common.prove(report, "C08", ["callbacks", "catalogue"], extra_targets=["Run/C08Run.vo"])
     ok, log = common.coq_make(["Run/C08Run.vo"])
     if not ok:
         report.violation({"kind": "broken-obligation", "obligation": "Run/C08Run.vo does not build against the regenerated callback tables", "detail": log[-1500:], "also": proof.get("broken")}, False, tag="modelbuild")
